@@ -29,6 +29,16 @@ def sample(vari, size: int=1):
         return vari
     raise ValueError("Variable to sample is not the right length")
 
+def sample_scalar(vari):
+    """
+    "Sample" a quantity that is a single number:
+    a sampler returns an array holding one draw, the caller needs the number.
+    """
+    val = sample(vari)
+    if isinstance(val, np.ndarray):
+        return val.item()
+    return val
+
 @dataclass
 class RandomMIRP:
     """
@@ -62,10 +72,10 @@ class RandomMIRP:
             np.random.seed(self.seed)
 
         # For any input that is a distribution/random variable, sample it
-        time_horizon = sample(self.time_horizon)
-        cargo_size = sample(self.cargo_size)
-        num_supply_ports = sample(self.num_supply_ports)
-        num_demand_ports = sample(self.num_demand_ports)
+        time_horizon = sample_scalar(self.time_horizon)
+        cargo_size = sample_scalar(self.cargo_size)
+        num_supply_ports = sample_scalar(self.num_supply_ports)
+        num_demand_ports = sample_scalar(self.num_demand_ports)
 
         # Supply
         inventory_init_supply = sample(self.inventory_init_supply, size=num_supply_ports)
@@ -119,7 +129,7 @@ class RandomMIRP:
             # travel time will be proxy for cost
             travel_cost_per_unit_time = 1.0
         else:
-            travel_cost_per_unit_time = sample(self.travel_cost_per_unit_time)
+            travel_cost_per_unit_time = sample_scalar(self.travel_cost_per_unit_time)
         assert travel_cost_per_unit_time >= 0,\
             "Travel cost per unit time should be non-negative"
 
